@@ -42,7 +42,8 @@ import (
 const (
 	_binaryChunkSize      = 4096
 	_binaryFinalChunk     = byte('B')  // final chunk
-	_binaryChunk          = byte('b')  // non-final chunk
+	_binaryChunk          = byte('A')  // non-final chunk (x41)
+	_binaryChunkLegacy    = byte('b')  // non-final chunk of the draft spec: collides with object #2 (x62)
 	_binaryShortLenTagMin = byte(0x20) // 1-byte length binary min
 	_binaryShortLenTagMax = byte(0x2f) // 1-byte length binary max
 	_binaryShortTagMaxLen = int(_binaryShortLenTagMax - _binaryShortLenTagMin)
@@ -152,7 +153,7 @@ func binaryShortTag(tag byte) bool {
 }
 
 func binaryChunkTag(tag byte) bool {
-	return tag == _binaryFinalChunk || tag == _binaryChunk
+	return tag == _binaryFinalChunk || tag == _binaryChunk || tag == _binaryChunkLegacy
 }
 
 func binaryEndTag(tag byte) bool {
